@@ -39,7 +39,7 @@ func H_C19_rolling() {
 		p := []byte{next, '\n'}
 		next++
 		r = vClockCount()
-		attempts, files, writes := vFSOpenAttempts(), len(vFSNames(dir)), vFSWriteCount()
+		attempts, files, writes, wfaults := vFSOpenAttempts(), len(vFSNames(dir)), vFSWriteCount(), vFSWriteFaults()
 		app.Write(p) // must return normally whatever fails
 		t := vClockReading(r)
 		crossed := m.trunc(t) > m.curr
@@ -51,6 +51,11 @@ func H_C19_rolling() {
 			}
 		} else {
 			vAssert(vFSOpenAttempts() == attempts, "no-creation-attempt-inside-an-interval")
+		}
+		if vFSWriteFaults() == wfaults {
+			// no write fault was injected: the payload must have been written (to the new file,
+			// or to the file already held when the creation failed)
+			vAssert(vFSWriteCount() == writes+1, "payload-written-unless-the-write-itself-failed")
 		}
 		if vFSWriteCount() > writes {
 			f := &m.files[len(m.files)-1]
